@@ -350,6 +350,8 @@ def run_program(case, p=None):
         for (t1, e1, s1, l1), (t2, e2, s2, l2) in itertools.combinations(singles, 2):
             if t1.split('-')[0] == t2.split('-')[0] or (e1 == e2 and (l1.wrap or l2.wrap) and (l1.wrap and l2.wrap)):
                 continue
+            if t1.endswith('-lhs') or t2.endswith('-lhs'):
+                continue  # left-hand-side bracket spacing is rejected on its own (known findings): pairs add nothing
             if e1 == e2:
                 lay = Layout()
                 lay.gaps = {**l1.gaps, **l2.gaps}
@@ -406,13 +408,52 @@ def run_program(case, p=None):
     return out
 
 
+FENCE_BASES = [
+    '```\nself._Y[t] = 1.0\n```\nZ = Y + X[-1]',
+    'Z = Y + X[-1]\n```\nif self._Z[t] > 0:\n    self._Y[t] = self._Z[t]\n```',
+    '`self._Y[t] = 2.0`\nZ = Y',
+]
+
+
+def fence_variants(base):
+    lines = base.split('\n')
+    for i, line in enumerate(lines):
+        if line.startswith('```') or (line.startswith('`') and line.endswith('`')):
+            yield 'T1-comment-on-fence-line', '\n'.join(lines[:i] + [line + '  # comment (with a bracket'] + lines[i + 1:])
+        if not line.startswith(('`', ' ', 'self', 'if')):
+            yield 'T1-comment-after-equation', '\n'.join(lines[:i] + [line + '  # note'] + lines[i + 1:])
+    yield 'T2-blank-lines', '\n\n' + base.replace('```\nZ', '```\n\nZ').replace('\n```\nif', '\n\n```\nif') + '\n\n'
+    yield 'T1-comment-lines', '# leading comment\n' + base + '\n# trailing comment'
+
+
+@robust()
+def run_fence(case):
+    base = FENCE_BASES[case['i']]
+    syms, err = parse(base)
+    if err:
+        return [('fence:base-rejected:%s' % err, 'accepted', err, 'base script with a verbatim block rejected: %r' % base)]
+    out = []
+    for tag, script in fence_variants(base):
+        out += compare(syms, script, 'fence:' + tag)
+    return out
+
+
 def blocks(tier, seed):
     nb = 64 if tier == 'quick' else 128
-    return [{'b': b, 'nb': nb} for b in range(nb)]
+    return [{'b': b, 'nb': nb} for b in range(nb)] + [{'fence': True}]
 
 
 def run_block(block, tier, seed):
     acc = Acc()
+    if block.get('fence'):
+        for i in range(len(FENCE_BASES)):
+            case = {'kind': 'fence', 'i': i, 'script': FENCE_BASES[i]}
+            k = len(list(fence_variants(FENCE_BASES[i])))
+            acc.evaluations += k
+            acc.nontrivial += k
+            for key, exp, obs, what in run_fence(case):
+                acc.violation(key, case, exp, obs, what)
+        return acc
     for i, p in enumerate(progs(tier)):
         if i % block['nb'] != block['b']:
             continue
@@ -437,6 +478,8 @@ def run_block(block, tier, seed):
 
 
 def run_one(case):
+    if case.get('kind') == 'fence':
+        return run_fence(case)
     return run_program(dict(case))
 
 
